@@ -244,6 +244,8 @@ class Model():
                 attacker.entry_points.remove(entry_point_tuple)
 
         self.assets.remove(asset)
+        self.asset_ids.discard(asset.id)
+        self.asset_names.discard(asset.name)
 
     def remove_asset_from_association(
             self,
